@@ -113,12 +113,12 @@ class ClassInfo(object):
 
 
 class Module(object):
-    def __init__(self, name, path, rel, src):
+    def __init__(self, name, path, rel, src, tree=None):
         self.name = name
         self.path = path
         self.rel = rel
         self.src = src
-        self.tree = ast.parse(src, filename=path)
+        self.tree = tree if tree is not None else ast.parse(src, filename=path)
         self.imports = {}  # local name -> ('mod', dotted) | ('sym', dotted module, symbol)
         self.star = []  # dotted modules imported with *
         self.classes = {}
@@ -182,6 +182,7 @@ class Index(object):
         root = os.path.join(self.repo, PKG)
         if not os.path.isdir(root):
             raise AnalysisError('package directory %s not found' % root)
+        parsed = {}
         for d, dirs, files in os.walk(root):
             dirs[:] = sorted(x for x in dirs if x not in EXCLUDE_DIRS)
             for f in sorted(files):
@@ -197,11 +198,19 @@ class Index(object):
                     raw = fh.read()
                 try:
                     src = raw.decode('utf-8')
-                    self.modules[name] = Module(name, path, rel, src)
+                    parsed[name] = (path, rel, src, ast.parse(src, filename=path))
                 except (SyntaxError, UnicodeDecodeError) as e:
                     self.parse_errors.append((rel, str(e)))
         if self.parse_errors:
             raise AnalysisError('cannot parse: %r' % (self.parse_errors,))
+        # E0: helpers the pinned tree does not have are inlined, dispatch tables become if-chains (sa/lower.py) -- the identity on the pinned tree
+        if os.environ.get('SA_NO_LOWERING') != '1':
+            from sa import lower
+            self.lowering = lower.lower_package({n: v[3] for n, v in parsed.items()})
+        else:
+            self.lowering = None
+        for name, (path, rel, src, tree) in parsed.items():
+            self.modules[name] = Module(name, path, rel, src, tree)
 
     def unimportable(self, mod):
         """name of a package-internal module that `mod` imports at top level and that does not exist (importing `mod` raises
